@@ -148,6 +148,20 @@ def history_rule(ctx, body, R):
                         a1 = [p for p in ch.args[1].places() if p.root == ('param', 2)]
                         if src and not (a0 and a1):
                             order_ok = False
+                    # only order- and multiplicity-preserving operations between the two histories and the result
+                    KEEP = {'iter', 'into_iter', 'chain', 'cloned', 'copied', 'collect', 'clone', 'to_vec', 'to_owned',
+                            'as_slice', 'deref', 'into', 'from', 'from_iter', 'concat', 'extend', 'map', 'by_ref',
+                            'collect_vec', 'as_ref', 'borrow', 'take'}
+                    alien = sorted({c.name.rsplit('::', 1)[-1] for c in alt.walk() if c.kind == 'call' and
+                                    c.name.rsplit('::', 1)[-1] not in KEEP})
+                    if 'take' in {c.name.rsplit('::', 1)[-1] for c in alt.walk() if c.kind == 'call' and
+                                  'iter' in c.name.lower()}:
+                        alien.append('Iterator::take')
+                    ctx.check(not alien, R, body, inst + ':verbatim',
+                              'histories are concatenated verbatim',
+                              'the merge history is passed through %s before it is stored: entries can be dropped, '
+                              'merged or reordered (the history must be the previous one followed once by the '
+                              "source's, verbatim)" % alien, s['ln'])
                     ctx.check(ok and order_ok, R, body, inst,
                               'written value = %r' % alt,
                               'written merge history %r does not consist of the previous history once followed by the '
@@ -223,9 +237,9 @@ def store_level(ctx, R):
         # store-level atomicity of add(): a track is put into the shard only when nothing can fail afterwards
         from restore import exits as _exits
         ex = {bb: kind for bb, kind, _ in _exits(add)}
-        ins = add.find_calls('std::collections::HashMap::insert') + [
-            c for c in add.find_calls() if c.name in ('or_insert', 'or_insert_with', 'insert_entry') and
-            'hash_map' in c.callee.lower()]
+        ins = [c for c in add.find_calls() if c.name in ('insert', 'or_insert', 'or_insert_with', 'insert_entry',
+                                                        'or_insert_with_key', 'or_default') and
+               ('hash_map' in c.callee or 'HashMap' in c.callee)]
         for c in ins:
             reach = add.reach_from(c.bb)
             bad = sorted(bb for bb, kind in ex.items() if bb in reach and kind != 'ok')
